@@ -17,17 +17,17 @@ import (
 
 // Ledger holds the recorded obligations of the escrow accounts in one state (DESIGN.md Appendix A.1/A.2).
 type Ledger struct {
-	OblMarket, OblNode         sdk.Dec
-	OblOrder, OblDid           sdk.Int
-	BalMarket, BalOrder        sdk.Int
-	BalNode, BalDid            sdk.Int
-	K                          map[string]sdk.Int // per provider: sum of collateral of its completed shards - recorded debt
-	TSP                        map[string]sdk.Int // per provider: capacity pledge
-	Accrued                    map[string]sdk.Dec // per provider: worker reward accrued as of this height
-	FutureRenew                sdk.Dec            // part of OblMarket: renewal periods not started
-	PerShardFutureRenew        map[uint64]sdk.Dec
-	Supply                     sdk.Int
-	ClaimableBlockReward       map[string]sdk.Dec
+	OblMarket, OblNode   sdk.Dec
+	OblOrder, OblDid     sdk.Int
+	BalMarket, BalOrder  sdk.Int
+	BalNode, BalDid      sdk.Int
+	K                    map[string]sdk.Int // per provider: sum of collateral of its completed shards - recorded debt
+	TSP                  map[string]sdk.Int // per provider: capacity pledge
+	Accrued              map[string]sdk.Dec // per provider: worker reward accrued as of this height
+	FutureRenew          sdk.Dec            // part of OblMarket: renewal periods not started
+	PerShardFutureRenew  map[uint64]sdk.Dec
+	Supply               sdk.Int
+	ClaimableBlockReward map[string]sdk.Dec
 }
 
 func (l *Ledger) DeltaMarket() sdk.Dec { return sdk.NewDecFromInt(l.BalMarket).Sub(l.OblMarket) }
